@@ -631,6 +631,12 @@ func (p *pp) handleMethods(verb rune) (handled bool) {
 			return
 
 		case i.SafeMessager:
+			if verb != 'v' && verb != 's' && verb != 'x' && verb != 'X' && verb != 'q' {
+				// CUSTOM: the safe message is a string; another verb ends
+				// in a bad verb report that prints the receiver itself,
+				// which must not happen under the safe override.
+				break
+			}
 			handled = true
 			defer p.catchPanic(p.arg, verb, "SafeMessager")
 			defer p.startSafeOverride().restore()
